@@ -73,6 +73,7 @@ type Obligation struct {
 	Cover   bool // reachability check: expected SAT
 	Lemma   bool
 	ExtraAs []*Term
+	PkgPath string
 	Script  string
 	Scripts []string // case split: the obligation holds iff every case is unsat
 	ScriptsG []string
@@ -139,6 +140,10 @@ type FnExec struct {
 	epochCtr  map[int]*Term
 	branchAtoms []*Term
 	storePos  token.Pos
+	nLookups  int
+	guardN    map[string]int
+	guardSeen map[string]bool
+	callResults map[string]specVar
 	entryFacts int
 }
 
